@@ -32,6 +32,7 @@ ASSUMPTIONS = [
     "thread schedules are explored at source-line granularity plus lock boundaries, 2 threads x 1-3 operations; counter updates outside the lock can only be lost at bytecode granularity",
 ]
 MIN_NONTRIVIAL_FRACTION = 0.3
+RULE += " Added after the seeded rounds: " + 'Raising digesters raise one of 16 exception types.'
 EXHAUSTIVE_NOTE = {"quick": "all op sequences of length 1..3 over 12 ops x 4 configurations (4*(12+144+1728) = 7536), complete",
                    "thorough": "all op sequences of length 1..4 over 12 ops x 4 configurations (90480), complete"}
 
